@@ -10,7 +10,7 @@ from ..vlib.report import MachineryError, Report
 from . import c13  # noqa: E402  (position_forms)
 
 util.ensure_repo_importable()
-from strengths import (RDGridSpace, RDGraphSpace, RDGraphSpaceNode, RDNetwork, RDSystem, RDTrajectory, Species, UnitArray,
+from strengths import (RDGridSpace, RDGraphSpace, RDGraphSpaceNode, RDNetwork, RDScript, RDSystem, RDTrajectory, Species, UnitArray,
                        UnitValue)  # noqa: E402
 
 PROP = "C17"
@@ -50,8 +50,17 @@ def _accessor_case(rep, rng, ns, S, N, kind):
             system, labels, dims = mk_system(S, N, kind, rng)
             unit = rng.choice(["molecule", "mol", "µmol"])
             data = UnitArray(np.arange(ns * S * N, dtype=float), unit)
-            tr = RDTrajectory(data=data, t_sample=UnitArray(np.arange(ns, dtype=float), "s"), system=system)
-            rep.case(["shape", ns, S, N, kind])
+            # the trajectory may carry the script that produced it; that script's system need not be the trajectory's (a trajectory
+            # spread back over the fine grid carries the coarse script): the accessors address the trajectory's own system
+            kw = {}
+            which = rng.randrange(3)
+            if which == 1:
+                kw["script"] = RDScript(system=system, t_sample=[0.0, 1.0])
+            elif which == 2:
+                other = RDSystem(network=RDNetwork(species=[Species("Q")], reactions=[]), space=RDGraphSpace(nodes=[RDGraphSpaceNode()], edges=[]))
+                kw["script"] = RDScript(system=other, t_sample=[0.0, 1.0])
+            tr = RDTrajectory(data=data, t_sample=UnitArray(np.arange(ns, dtype=float), "s"), system=system, **kw)
+            rep.case(["shape", ns, S, N, kind, which])
             tag = {"nsamples": ns, "nspecies": S, "ncells": N, "space": kind, "grid": dims}
             if (tr.nsamples(), tr.nspecies(), tr.ncells()) != (ns, S, N):
                 rep.violation("accessors", "traj:shape", tag)
